@@ -44,10 +44,19 @@ structure Cfg where
   tddl : Bool
   /-- `transaction_per_migration` -/
   perMig : Bool
+  /-- the context was configured with a live connection that is already inside a transaction.
+      `MigrationContext.__init__` sets `_in_external_transaction = False` in `as_sql` mode whatever
+      the connection says, so this field is deliberately not consulted below. -/
+  connInTxn : Bool := false
   deriving Repr
+
+/-- `self._in_external_transaction` as computed by `__init__` for an offline context -/
+def inExternalTransaction (_c : Cfg) : Bool := false
 
 /-- `begin_transaction(_per_migration)` in `as_sql` mode: does it emit BEGIN … COMMIT? -/
 def emitsBlock (c : Cfg) (perMigrationCall : Bool) : Bool :=
+  -- if self._in_external_transaction: return nullcontext()
+  if inExternalTransaction c then false else
   -- if self.impl.transactional_ddl: transaction_now = _per_migration == self._transaction_per_migration
   -- else: transaction_now = _per_migration is True   -> but `as_sql` returns nullcontext()
   if c.tddl then perMigrationCall == c.perMig else false
